@@ -122,7 +122,7 @@ Section Fields.
           eapply H_trans; [apply H_block|]. eapply H_trans; [apply H_kids|apply H_completed].
         * destruct (lock_acquired (st s n)); apply ok_refl.
       + cbn [out_state]. eapply ok_trans; [|apply ok_mark_completed]. eapply ok_trans; [|apply ok_complete].
-        destruct (locked_blocks p s) as [|old rest]; [apply ok_refl|]. eapply ok_trans; [apply ok_with_tag|apply ok_end_block].
+        destruct (active_blocks p s) as [|old rest]; [apply ok_refl|]. eapply ok_trans; [apply ok_with_tag|apply ok_end_block].
       + cbn [out_state]. eapply ok_trans; [|apply ok_mark_completed]. eapply ok_trans; [|apply ok_complete].
         eapply ok_trans; [apply ok_end_blocks|apply ok_with_tag].
       + destruct (negb (interrupt_registered (st s n))); [cbn [out_state]; ok|]. destruct (negb b); [apply ok_refl|].
